@@ -28,13 +28,26 @@ V2_ONLY = {"selected_altitude", "selected_heading", "baro_pressure_setting", "au
 V1_ONLY = {"target_altitude", "vertical_mode", "horizontal_mode", "target_angle", "tcas_ra", "emergency_status"}
 
 
+# DO-260B: NUCp / NIC by type code (2.2.3.2.7.2.6, Tables 2-69 / 2-70 / N-4); for type codes with several NIC rows the
+# supplement pair (NIC supplement-A, supplement-B for airborne / supplement-C for surface) selects the row.  Only the
+# category numbers are asserted, not the containment radii.
+NUCP_BY_TC = {5: 9, 6: 8, 7: 7, 8: 6, 9: 9, 10: 8, 11: 7, 12: 6, 13: 5, 14: 4, 15: 3, 16: 2, 17: 1, 18: 0, 20: 9, 21: 8, 22: 0}
+NIC_SET_BY_TC = {5: [11], 6: [10], 7: [9, 8], 8: [7, 6, 0], 9: [11], 10: [10], 11: [9, 8], 12: [7], 13: [6], 14: [5],
+                 15: [4], 16: [3, 2], 17: [1], 18: [0], 20: [11], 21: [10], 22: [0]}
+NIC_V2_ROWS = {(5, (0, 0)): 11, (6, (0, 0)): 10, (7, (1, 0)): 9, (7, (0, 0)): 8, (8, (1, 1)): 7, (8, (1, 0)): 6,
+               (8, (0, 1)): 6, (8, (0, 0)): 0, (9, (0, 0)): 11, (10, (0, 0)): 10, (11, (1, 1)): 9, (11, (0, 0)): 8,
+               (12, (0, 0)): 7, (13, (0, 1)): 6, (13, (0, 0)): 6, (13, (1, 1)): 6, (14, (0, 0)): 5, (15, (0, 0)): 4,
+               (16, (1, 1)): 3, (16, (0, 0)): 2, (17, (0, 0)): 1, (18, (0, 0)): 0, (20, (0, 0)): 11, (21, (0, 0)): 10,
+               (22, (0, 0)): 0}
+
+
 def items(tier, seed):
     out = [("tc29-" + f, {"f": f}) for f in TC29]
     out += [("tc28-is_emergency", {}), ("tc28-emergency_state", {}), ("version", {}), ("nic_s", {}), ("nic_a_c", {}),
             ("nic_b", {}), ("nac_p", {}), ("nuc_v", {}), ("nac_v", {})]
     out += [("sil-v%s" % v, {"version": v}) for v in (None, 0, 1, 2)]
     out += [("nuc_p", {}), ("nic_v1-s0", {"s": 0}), ("nic_v1-s1", {"s": 1})]
-    out += [("nic_v2-%d%d" % (a, b), {"a": a, "b": b}) for a in (0, 1) for b in (0, 1)]
+    out += [("nic_v2-%d%d" % (a, b), {"a": a, "b": b}) for a in (0, 1) for b in (0, 1)]     # b = NICbc (one bit used)
     out += [("mono-nuc_p", {}), ("mono-nuc_v", {}), ("mono-nac_v", {}), ("mono-sil", {})]
     out += [("mono-nac_p-%d-%d-%d" % (a, b, h), {"tcs": [a, b], "half": h}) for a in (29, 31) for b in (29, 31) for h in (0, 1)]
     v1 = [(0,), (1,)]
@@ -249,16 +262,47 @@ def run_item(item):
         tc = me.tc()
         dom = z3.And(me.adsb(), z3.Or(z3.And(tc >= 5, tc <= 18), z3.And(tc >= 20, tc <= 22)))
         item.assume(z3.Not(z3.And(me.adsb(), tc == 19)))      # TC19 falls outside the documented domain: C14
+        def table(tab):
+            """z3: value looked up by type code (Int term)"""
+            t = z3.IntVal(-1)
+            for k, v in tab.items():
+                t = z3.If(tc == k, z3.IntVal(v), t)
+            return t
+
+        def in_set(x, tab):
+            """z3: (tc, x) is an allowed (type code, category) pair"""
+            return z3.Or([z3.And(tc == k, z3.Or([H.to_int_term(x) == c for c in cs])) for k, cs in tab.items()])
         if name == "nuc_p":
             item.encoded("pyModeS.decoder.adsb.nuc_p")
-            run("pyModeS.adsb.nuc_p", pm.adsb.nuc_p, (), dom, lambda v: isinstance(v, tuple) and len(v) == 4)
+            run("pyModeS.adsb.nuc_p", pm.adsb.nuc_p, (), dom,
+                lambda v: H.zand(isinstance(v, tuple) and len(v) == 4, H.int_eq(v[0], table(NUCP_BY_TC))
+                                 if isinstance(v, tuple) and len(v) == 4 else False))
         elif name.startswith("nic_v1"):
             item.encoded("pyModeS.decoder.adsb.nic_v1")
-            run("pyModeS.adsb.nic_v1", pm.adsb.nic_v1, (prm["s"],), dom, lambda v: isinstance(v, tuple) and len(v) == 3)
+            run("pyModeS.adsb.nic_v1", pm.adsb.nic_v1, (prm["s"],), dom,
+                lambda v: H.zand(isinstance(v, tuple) and len(v) == 3,
+                                 in_set(v[0], NIC_SET_BY_TC) if isinstance(v, tuple) and H.is_int_like(v[0]) else False))
         else:
             item.encoded("pyModeS.decoder.adsb.nic_v2")
-            run("pyModeS.adsb.nic_v2", pm.adsb.nic_v2, (prm["a"], prm["b"]), dom,
-                lambda v: isinstance(v, tuple) and len(v) == 2)
+            a, b = prm["a"], prm["b"]
+
+            def claim_v2(v):
+                if not (isinstance(v, tuple) and len(v) == 2):
+                    return False
+                gnss = z3.And(tc >= 20, tc <= 22)
+                defined = z3.Or([tc == k for (k, sup) in NIC_V2_ROWS if sup == (a, b)] + [gnss])
+                want = z3.IntVal(-1)
+                for (k, sup), nic in NIC_V2_ROWS.items():
+                    if sup == (a, b):
+                        want = z3.If(tc == k, z3.IntVal(nic), want)
+                for k in (20, 21, 22):
+                    want = z3.If(tc == k, z3.IntVal(NIC_V2_ROWS[(k, (0, 0))]), want)
+                if v[0] is None:
+                    return z3.Not(defined)          # (None, None) only for combinations DO-260B does not define
+                if not H.is_int_like(v[0]):
+                    return False
+                return z3.If(defined, H.to_int_term(v[0]) == want, in_set(v[0], NIC_SET_BY_TC))
+            run("pyModeS.adsb.nic_v2", pm.adsb.nic_v2, (a, b), dom, claim_v2)
 
     elif name.startswith("mono-"):
         which = name[5:].split("-")[0]
